@@ -20,7 +20,7 @@ EXPLANATION = (
     "operation in worker code outside exception handlers is wait() (no "
     "reset), and every condition controlling a wait() or an early return "
     "depends only on task-uniform values; R3 the worker wrapper aborts the "
-    "barrier (or waits carry timeouts) before re-raising; R4 every "
+    "barrier before re-raising, no finite barrier timeout; R4 every "
     "SharedMemory(create=True) is closed and unlinked on all normal and "
     "exceptional paths and releasing one segment does not reference the "
     "other; R5 no phase has a cross-stripe write/read overlap; R6 stripe "
@@ -38,6 +38,10 @@ BARRIER_OPS = {"wait", "reset", "abort"}
 
 
 MUTANTS = [
+    ("barrier with a 30 s timeout", "AegeanTools/BANE.py",
+     "        barrier = ctx.Barrier(parties=len(ymaxs))",
+     "        barrier = ctx.Barrier(parties=len(ymaxs), timeout=30)",
+     "C07-R3"),
     ("pool joined in the finally block before the release",
      "AegeanTools/BANE.py",
      "    finally:\n        ibkg.close()",
@@ -545,13 +549,39 @@ def r2(ctx, prog, closure, bglobal, worker, parent, tasks_expr, wrapper):
 # --------------------------------------------------------------------------
 def r3(ctx, wrapper, worker, bglobal, parent):
     ctx.rule("C07-R3", "failure containment: the submitted wrapper's "
-             "exception handler aborts the barrier before re-raising, or "
-             "every wait() carries a timeout, so a failing stripe cannot "
-             "leave the others blocked")
+             "exception handler aborts the barrier before re-raising, so a "
+             "failing stripe cannot leave the others blocked; the barrier "
+             "and its waits carry NO finite timeout (a timeout turns a slow "
+             "but correct schedule -- one stripe reaching the "
+             "synchronisation point late -- into a failure, so termination "
+             "and the result would depend on timing)")
+    # no finite timeout anywhere on the barrier
+    tmo = []
+    for c in walk_no_nested(parent.node):
+        if isinstance(c, ast.Call) and norm(c.func).split(".")[-1] == \
+                "Barrier":
+            t_ = kwarg(c, "timeout") or (c.args[2] if len(c.args) > 2
+                                         else None)
+            if t_ is not None and not (isinstance(t_, ast.Constant) and
+                                       t_.value is None):
+                tmo.append(c)
+    for c in barrier_calls(worker.node, bglobal):
+        if c.func.attr == "wait":
+            t_ = kwarg(c, "timeout") or (c.args[0] if c.args else None)
+            if t_ is not None and not (isinstance(t_, ast.Constant) and
+                                       t_.value is None):
+                tmo.append(c)
+    ctx.check("C07-R3", parent, "no finite timeout on the barrier", not tmo,
+              "`%s` gives the barrier a finite timeout: when one stripe "
+              "reaches a synchronisation point later than that after the "
+              "others (large image with a thin last stripe, more stripes "
+              "than free cores, slow disk) every wait raises "
+              "BrokenBarrierError and BANE fails although no worker did" %
+              (norm(tmo[0], 70) if tmo else ""),
+              node=tmo[0] if tmo else parent.node)
     waits = [c for f in (worker,) for c in barrier_calls(f.node, bglobal)
              if c.func.attr == "wait"]
-    all_timeout = bool(waits) and all(c.args or kwarg(c, "timeout")
-                                      is not None for c in waits)
+    all_timeout = False        # timeouts are no containment (see above)
     handlers = [h for h in walk_no_nested(wrapper.node)
                 if isinstance(h, ast.ExceptHandler)]
     if not handlers:
